@@ -139,7 +139,7 @@ class apply_solid_ot_paint_stub:
     returns = Const(None)
     ensures = {}
     native = False
-    note = "sets fill / opacity on the element (bounded tier: colr_to_svg pictures)"
+    note = "summary with an empty postcondition (only the call's arguments are used); the function itself is under the contract apply_solid_ot_paint"
 
 
 @contract("nanoemoji.colr_to_svg._apply_gradient_ot_paint", props=["C13"])
@@ -498,5 +498,30 @@ class apply_gradient_ot_paint_radial:
         "residual-is-the-gradient-transform": lambda calls: spec.aff(calls[_AGP2][0].args.transform) == spec.aff(calls[_DEC][0].result[1]),
         "colour-line": lambda ttfont, ot_paint, calls: _stops_kept(ttfont, ot_paint, calls[_AGP2][0].args.paint)
         and calls[_AGP2][0].args.paint.extend.value == (ot_paint.ColorLine.Extend,),
+    }
+    native = False
+
+
+# ---- _apply_solid_ot_paint: palette colour x paint alpha onto the element --------------------
+
+
+def _solid_rgba(ttfont, ot_paint):
+    pal = ttfont["CPAL"].palettes[0]
+    i = ot_paint.PaletteIndex
+    return (-1, -1, -1, ot_paint.Alpha) if i == 0xFFFF else (pal[i].red, pal[i].green, pal[i].blue, ot_paint.Alpha * pal[i].alpha / 255)
+
+
+@contract("nanoemoji.colr_to_svg._apply_solid_ot_paint", props=["C13", "C15"])
+class apply_solid_ot_paint:
+    scope = "finite: a font with one palette (multi-palette var(--colorN, c) fills: _color's contract and the bounded tier)"
+    args = {"svg_path": Elem("path"), "ttfont": _CPAL1, "ot_paint": Obj(Format=Const(2), PaletteIndex=Int, Alpha=Real)}
+    requires = [lambda ttfont, ot_paint: ot_paint.PaletteIndex >= 0 and (ot_paint.PaletteIndex == 0xFFFF or ot_paint.PaletteIndex < len(ttfont["CPAL"].palettes[0]))]
+    ensures = {
+        "fill-iff-not-black": lambda svg_path, ttfont, ot_paint: iff("fill" in svg_path.attrib, _solid_rgba(ttfont, ot_paint)[:3] != (0, 0, 0)),
+        "fill-is-the-palette-colour": lambda svg_path, ttfont, ot_paint: "fill" not in svg_path.attrib
+        or svg_path.attrib["fill"] == ufn("css_colour", "str", _solid_rgba(ttfont, ot_paint)[0], _solid_rgba(ttfont, ot_paint)[1], _solid_rgba(ttfont, ot_paint)[2], 1.0),
+        # CPAL alpha (COLRv0 style) times the paint's alpha; the foreground colour keeps the paint's alpha
+        "opacity-is-palette-alpha-times-paint-alpha": lambda svg_path, ttfont, ot_paint: iff("opacity" in svg_path.attrib, _solid_rgba(ttfont, ot_paint)[3] != 1)
+        and ("opacity" not in svg_path.attrib or svg_path.attrib["opacity"] == ufn("ntos_round3", "str", _solid_rgba(ttfont, ot_paint)[3])),
     }
     native = False
